@@ -39,8 +39,6 @@ def _common_opts(stdin_path=None, policy='P0', renv=None, wenv=None, sigs=None, 
 
 def run(variant, args, dev=None, save_stdout=None, save_stderr=None, cps=False, **kw):
     exe = build.lbzx(variant)
-    if variant == 'tsan':
-        kw['fork'] = True
     cmd = [exe, 'run'] + _common_opts(**kw)
     if dev:
         cmd += ['--dev', ','.join('%d.%d' % (i, a) for i, a in dev)]
@@ -57,8 +55,6 @@ def run(variant, args, dev=None, save_stdout=None, save_stderr=None, cps=False, 
 
 def explore(variant, args, bound=0, jobs=None, deadline=None, **kw):
     exe = build.lbzx(variant)
-    if variant == 'tsan':
-        kw['fork'] = True
     cmd = [exe, 'explore'] + _common_opts(**kw) + ['--bound', str(bound), '--jobs', str(jobs or common.NCPU)]
     if deadline is not None:
         cmd += ['--deadline', '%.1f' % max(1.0, deadline)]
